@@ -221,4 +221,42 @@ theorem sstep_check_fres (H : Bytes → K) (s : Sess K) (p : Bytes) (st : Stat) 
       ∧ (sstep H s (.check p st ts now rnd)).db = (checkFile s.db p st ts now rnd).1 := by
   simp [sstep]
 
+/-- sessions reachable by `sstep`s from the fresh one -/
+def Reach (H : Bytes → K) (s : Sess K) : Prop := ∃ sops, s = srun H sops
+
+theorem reach_sstep (H : Bytes → K) (s : Sess K) (op : SOp) (h : Reach H s) : Reach H (sstep H s op) := by
+  obtain ⟨sops, rfl⟩ := h
+  exact ⟨sops ++ [op], by simp [srun]⟩
+
+theorem reach_toolFileStep (H : Bytes → K) (s : Sess K) (h : Reach H s) (p : Bytes) (st : Stat) (ign : Bool)
+    (cap : Bytes) (healthy : Bool) (now : Int) (rnd : Nat) :
+    Reach H (toolFileStep H s p st ign cap healthy now rnd).1 := by
+  have h1 := reach_sstep H s (.check p st (!ign) now rnd) h
+  unfold toolFileStep
+  simp only
+  (repeat' split) <;> (try dsimp only) <;> first | exact h1 | exact reach_sstep H _ _ h1
+
+theorem reach_toolDirStep (H : Bytes → K) (s : Sess K) (h : Reach H s) (c : List Entry) (d : Bytes)
+    (healthy : Bool) (now : Int) (rnd : Nat) : Reach H (toolDirStep H s c d healthy now rnd).1 := by
+  have h1 := reach_sstep H s (.checkDir c now rnd) h
+  unfold toolDirStep
+  simp only
+  (repeat' split) <;> (try dsimp only) <;> first | exact h1 | exact reach_sstep H _ _ h1
+
+theorem reach_trun (H : Bytes → K) (rs : List RunStep) : Reach H (trun H rs) := by
+  unfold trun
+  have h0 : Reach H ({} : Sess K) := ⟨[], rfl⟩
+  generalize ({} : Sess K) = s at h0
+  induction rs generalizing s with
+  | nil => exact h0
+  | cons r rest ih =>
+    apply ih
+    cases r with
+    | file p st ign cap healthy now rnd => exact reach_toolFileStep H s h0 p st ign cap healthy now rnd
+    | dir c d healthy now rnd => exact reach_toolDirStep H s h0 c d healthy now rnd
+
+theorem sstep_checkDir_dres (H : Bytes → K) (s : Sess K) (c : List Entry) (now : Int) (rnd : Nat) :
+    (sstep H s (.checkDir c now rnd)).dres[s.dres.length]? = some (checkDirectory H s.db c now rnd, c) := by
+  simp [sstep]
+
 end Tahoe.BackupDb
